@@ -107,6 +107,22 @@ fn main() {
                 println!("{}", serde_json::to_string_pretty(&case).unwrap());
             }
         }
+        "probe" => {
+            // debugging aid: {"program": "...", "queries": [<node worker queries>]} -> the worker's answer
+            let text = std::fs::read_to_string(&args[2]).expect("read");
+            let v: serde_json::Value = serde_json::from_str(&text).expect("json");
+            let node = proc::find_node().expect("node");
+            let mut ctx = runner::Ctx::new(&node, Tier::Quick, Default::default());
+            let mut out = runner::Outcome::default();
+            let code = c01::compile_case(v["program"].as_str().unwrap_or(""), &mut out, &mut ctx, "probe");
+            match code {
+                None => println!("compile failed: {:?}", out.violation.map(|x| x.what)),
+                Some(code) => {
+                    let r = c01::node_case(&mut ctx, Some(&code), v["queries"].as_array().cloned().unwrap_or_default());
+                    println!("{}", serde_json::to_string_pretty(&r.unwrap_or_else(|e| serde_json::json!({"error": e}))).unwrap());
+                }
+            }
+        }
         "worker-compile" => compile::worker_main(),
         "sem" => {
             let text = std::fs::read_to_string(&args[2]).expect("read");
